@@ -184,6 +184,46 @@ def tok_5(ctx, rep):
         and isinstance(prev.iter.slice, ast.Slice) and norm(prev.iter.value) == 'indents' \
         and any(_yield_token_type(s) == 'DEDENT' for s in prev.body) \
         and any('indents.pop()' in norm(s) for s in prev.body)
+    helper_call = None
+    if not ok and isinstance(prev, ast.Expr) and isinstance(prev.value, ast.YieldFrom) and isinstance(prev.value.value, ast.Call) \
+            and isinstance(prev.value.value.func, ast.Name):
+        # the same through the dedent helper: `yield from <helper>(0)` pops and yields one DEDENT per level above column 0
+        c = prev.value.value
+        h = f.nested.get(c.func.id) or f.mod.funcs.get(c.func.id)
+        if h is not None and any(isinstance(a, ast.Constant) and a.value == 0 for a in c.args) \
+                and any(isinstance(w, ast.While) and 'indents[-1]' in norm(w.test)
+                        and any(_yield_token_type(x) == 'DEDENT' for x in ast.walk(w) if isinstance(x, ast.stmt))
+                        and any('indents.pop()' in norm(x) for x in ast.walk(w) if isinstance(x, ast.stmt))
+                        for w in walk_own(h.node)):
+            ok = True
+            helper_call = (c, h)
+    # every token of the epilogue stands at the end of the input: the position of the ENDMARKER (seed rt13-C07: DEDENTs
+    # emitted through the per-line helper carry the position of the last token the scan matched)
+    if ends:
+        end_pos_expr = norm(fields.get('start_pos')) if fields.get('start_pos') is not None else None
+        loops = [i for i, st in enumerate(f.node.body) if isinstance(st, ast.For) and any(isinstance(w, ast.While) for w in ast.walk(st))]
+        if end_pos_expr is not None and loops:
+            epilogue = f.node.body[loops[-1] + 1:]
+            in_epilogue = {id(x) for st in epilogue for x in ast.walk(st)}
+            for g, c, fl in token_constructions(ctx, TOK):
+                pos = fl.get('start_pos')
+                string = fl.get('string')
+                if pos is None or not (isinstance(string, ast.Constant) and string.value == ''):
+                    continue            # tokens that carry text stand where their text is; the zero-width ones are meant
+                if g is f and id(c) in in_epilogue:
+                    rep.ob('TOK-5', TOK, f.qual, 'epilogue token at the end position: %s' % norm(c), norm(pos) == end_pos_expr,
+                           'a token emitted after the last line does not stand at the end of the input (%s)' % end_pos_expr)
+                elif helper_call is not None and g is helper_call[1]:
+                    call, h = helper_call
+                    ps = h.params()
+                    actual = norm(pos)
+                    if isinstance(pos, ast.Name) and pos.id in ps and ps.index(pos.id) < len(call.args):
+                        actual = norm(call.args[ps.index(pos.id)])
+                    rep.ob('TOK-5', TOK, f.qual, 'epilogue token (through %s) at the end position: %s' % (h.name, norm(c)),
+                           actual == end_pos_expr,
+                           'the end-of-file tokens emitted through %s carry the position %s (where the scan matched its last '
+                           'token), not the end of the input %s: a strict parse that fails on such a token reports the wrong place'
+                           % (h.name, actual, end_pos_expr))
     rep.ob('TOK-5', TOK, f.qual, 'DEDENT loop: %s' % (head(prev) if prev is not None else None), ok,
            'the epilogue does not empty the indentation stack with one DEDENT per level over a copy of the stack')
 
